@@ -10,6 +10,7 @@ import ConfModel.Lemmas.RunLoop
 import ConfModel.Lemmas.FeedbackRun
 import ConfModel.Lemmas.ReportMsg
 import ConfModel.Model.FeedbackLineRepair
+import ConfModel.Model.FeedbackLabel
 import ConfModel.Model.Cli
 import ConfModel.Props.C10
 import ConfModel.Props.C11
@@ -822,6 +823,76 @@ theorem feedback_line_fails (mk : Marks) (w : List Client)
     | none => simp [hk] at ha
     | some k => simp [hk, hnote, hmark] at ha
 
+open ConfModel.FeedbackLine ConfModel.ServerRunner ConfModel.ServerRunner.Spec in
+/-- **Attribution of feedback is exact string equality, for EVERY label.**  What the batch runner's
+reader does with the line the reference server's printer writes under a label `lbl` (any string the
+framing can carry: no `": "` inside, no white space in front — per-cent escapes, `+`, upper and lower
+case, non-ASCII, anything) is decided by whether `lbl` IS one of the batch's test names: then it is a
+`recordSideband` call for exactly `lbl` with exactly `text`; otherwise the line is forwarded as noise
+and nothing is recorded for anybody.  There is no normalisation between label and name. -/
+theorem feedback_attribution_exact (names : List (List Char)) (lbl text : List Char)
+    (hsep : noSep lbl = true) (hn : startsClean lbl = true) (ht : endsClean text = true) :
+    lineAct names (prefixLine lbl text) =
+      if lbl ∈ names then .record lbl text else .forward (prefixLine lbl text) := by
+  rw [prefixLine_eq lbl text ht, lineAct_label names lbl text hsep hn ht]
+  simp only [List.contains_eq_mem, decide_eq_true_eq]
+
+open ConfModel.FeedbackLine ConfModel.ServerRunner ConfModel.ServerRunner.Spec in
+/-- … hence a complaint reaches the case `nm` of the batch iff the server's label EQUALS `nm`: a
+reference server that prints its complaint under any other string — the unescaped, case-folded,
+trimmed, normalised form of the name — has it recorded for another case (if that string happens to
+name one) or for nobody. -/
+theorem feedback_label_must_equal_name (names : List (List Char)) (nm lbl text : List Char)
+    (hm : nm ∈ names)
+    (hsep : noSep lbl = true) (hn : startsClean lbl = true) (ht : endsClean text = true) :
+    (∃ t, lineAct names (prefixLine lbl text) = .record nm t) ↔ lbl = nm := by
+  rw [feedback_attribution_exact names lbl text hsep hn ht]
+  constructor
+  · rintro ⟨t, h⟩
+    by_cases hl : lbl ∈ names
+    · rw [if_pos hl] at h
+      injection h
+    · rw [if_neg hl] at h
+      exact absurd h (by simp)
+  · rintro rfl
+    exact ⟨text, by rw [if_pos hm]⟩
+
+open ConfModel.FeedbackLabel in
+/-- **The label the reference server prints is the test name the runner sent, for EVERY name**: the
+runner's `x-test-case-name` header read back by `getTestCaseName` is the name itself (only the empty
+name, which `newTestCaseLibrary` rejects, does not come back). -/
+theorem label_is_name (nm : List Char) (hne : nm ≠ []) :
+    getTestCaseName (headerOf nm) = some nm := by
+  cases nm with
+  | nil => exact absurd rfl hne
+  | cons c t => rfl
+
+open ConfModel.FeedbackLine ConfModel.FeedbackLabel ConfModel.ServerRunner.Spec in
+/-- **feedback_request_fails.**  `feedback_line_fails` from the REQUEST on: if the stderr of a started
+reference server carries the complaint it writes about a request with the `x-test-case-name` header
+the runner adds for case i (`complaint (headerOf nm) text`), the case is unmarked and its name is one
+the framing can carry, `Run` fails — whatever else the name contains. -/
+theorem feedback_request_fails (mk : Marks) (w : List Client)
+    (hne : ∀ s ∈ allScripts w, 0 < s.cases.length)
+    (hnamed : ∀ s ∈ allScripts w, s.names.length = s.cases.length)
+    (hd : (allNames w).Nodup)
+    (hex : ∀ n ∈ allNames w, (mk.failing n && mk.flaky n) = false)
+    (s : Script) (hs : s ∈ allScripts w) (i : Nat) (hi : i < s.cases.length)
+    (hstart : s.startErr = false) (href : s.isRef = true)
+    (nm text : List Char) (hnm : s.names[i]? = some nm) (hnonempty : nm ≠ [])
+    (hsep : noSep nm = true) (hn : startsClean nm = true) (hnl : oneLine nm = true)
+    (ht : endsClean text = true) (htl : oneLine text = true)
+    (pre : List (List Char)) (hpre : ∀ l ∈ pre, oneLine l = true) (post : List Char)
+    (herr : s.stderr = streamOf pre ++ complaint (headerOf nm) text ++ post)
+    (hmark : markOf mk (caseName s i) = .unmarked) :
+    Run mk w = false := by
+  have hc : complaint (headerOf nm) text = prefixLine nm text := by
+    unfold complaint
+    rw [label_is_name nm hnonempty]
+  rw [hc] at herr
+  exact feedback_line_fails mk w hne hnamed hd hex s hs i hi hstart href nm text hnm hsep hn hnl ht htl
+    pre hpre post herr hmark
+
 open ConfModel.FeedbackLine ConfModel.ServerRunner.Spec in
 /-- **feedback_any_phase_fails.**  Feedback counts whenever the reference server prints it before it
 has ENDED: the runner reads the server's stderr until the server is gone, so the stream is what the
@@ -960,6 +1031,35 @@ example :
     Run mk (fbWorld good) = false ∧ Run mk (fbWorld mangled) = true ∧ Run mk (fbWorld []) = true ∧
     ServerRunner.Spec.noSep "S/50%off".toList = true ∧ startsClean "S/50%off".toList = true ∧
     markOf mk "S/50%off" = .unmarked := by decide
+
+/-- a batch whose reference server complains about the case whose name holds a VALID per-cent escape -/
+def fbWorldPct (line : List Char) : List Client :=
+  [{ startErr := false, waitErr := false
+     batches := [{ noticed := false
+                   s := { cases := [.answer .pass true, .answer .pass true], isRef := true, useTLS := false,
+                          startErr := false, writeErr := false, closeErr := false, resp := .ok, dies := none,
+                          names := ["S/wrong-codec-100%25-compressible".toList, "S/a%41".toList], stderr := line } }] }]
+
+open ConfModel.FeedbackLine ConfModel.FeedbackLabel ConfModel.ServerRunner in
+/-- hypotheses of `feedback_attribution_exact`, `feedback_label_must_equal_name`, `label_is_name` and
+`feedback_request_fails` on a name with `%25`: the complaint printed under the name as it was sent fails
+the run; printed under the unescaped form of the name (`…100%-compressible`) it is forwarded as noise and
+the run SUCCEEDS although the peer complained; the unescaped form `S/aA` of the twin `S/a%41` is nobody's
+name either — and would be somebody else's if the batch held a case called `S/aA`. -/
+example :
+    let nm := "S/wrong-codec-100%25-compressible".toList
+    let decoded := "S/wrong-codec-100%-compressible".toList
+    let text := "expected codec proto; instead got json".toList
+    let names := [nm, "S/a%41".toList]
+    let mk : Marks := { failing := fun _ => false, flaky := fun _ => false }
+    Spec.noSep nm = true ∧ startsClean nm = true ∧ endsClean text = true ∧ nm ∈ names ∧ decoded ∉ names ∧
+    getTestCaseName (headerOf nm) = some nm ∧
+    lineAct names (prefixLine nm text) = .record nm text ∧
+    lineAct names (prefixLine decoded text) = .forward (prefixLine decoded text) ∧
+    lineAct ("S/aA".toList :: names) (prefixLine "S/aA".toList text) = .record "S/aA".toList text ∧
+    Run mk (fbWorldPct (streamOf ["starting".toList] ++ complaint (headerOf nm) text ++ "bye".toList)) = false ∧
+    Run mk (fbWorldPct (streamOf ["starting".toList] ++ prefixLine decoded text ++ "bye".toList)) = true ∧
+    markOf mk "S/wrong-codec-100%25-compressible" = .unmarked := by decide
 
 open ConfModel.FeedbackLine in
 /-- hypotheses of `feedback_any_phase_fails`: the complaint about `S/50%off` printed during the graceful
